@@ -981,7 +981,9 @@ def run_batch(cases):
             r["classes"] = r.get("classes") or ["construct:" + c["kind"], "outcome:%s:killed" % c["kind"]]
             results[started] = r
             start = started + 1
-        time.sleep(0.05)
+        t_end = time.time() + 10          # the accepting thread may lag behind under load
+        while lis.count < spawns + traced_conns and time.time() < t_end:
+            time.sleep(0.02)
         if lis.count != spawns + traced_conns:
             raise RuntimeError("C17 harness: listener accepted %d connections but the trace shows "
                                "%d controls + %d document connects: the two observations disagree"
